@@ -100,6 +100,7 @@ func main() {
 	}
 	if name == "dump-tables" {
 		dumpTables(os.Args[2])
+		cleanupTemp()
 		return
 	}
 	st, ok := streams[name]
@@ -120,6 +121,7 @@ func main() {
 		os.Stdout = dn
 	}
 	out := bufio.NewWriterSize(protoOut, 1<<20)
+	defer cleanupTemp()
 	defer out.Flush()
 	switch mode {
 	case "gen":
